@@ -185,6 +185,8 @@ def discover(ctx, ir, mdl):
             for l in a.guard:
                 if isinstance(l.e, E):
                     s |= q.support(ir, l.e)
+            if isinstance(a.rhs, E):
+                s |= q.support(ir, a.rhs)          # the selection may sit in a combinational next-value signal
         gated[r] = s & set(STROBES)
     best = []
     for perm in itertools.permutations(mdl.regs):
